@@ -10,8 +10,10 @@
 //! field type (also the batch's own schema); a field declared non-nullable holds no NULL (`logical_null_count`),
 //! recursively for struct children declared non-nullable (rows where the parent is NULL excepted). Top level: the
 //! executed root's column types are logically equal (`DFSchema::datatype_is_logically_equal`) to the types of the
-//! logical plan's schema — both the analyzed plan (what `DataFrame::schema()` shows) and the optimized plan — and the
-//! field names are equal.
+//! logical plan's schema — both the analyzed plan (after the analyzer's type coercion) and the optimized plan — and
+//! the field names are equal. The schema of the plan as it leaves the SQL planner, *before* the analyzer, is not
+//! judged: a UNION of Utf8 and LargeUtf8 inputs is typed Utf8 there and LargeUtf8 after coercion (label
+//! `pre-analysis-schema-type-differs`); a plan is only required to be type-correct once analyzed.
 //!
 //! Non-trivial: the plan has ≥ 3 executed nodes, some batch with ≥ 1 row was checked, and some node declares a
 //! non-nullable column or the plan contains a cast/aggregate/window/join (a non-trivially typed expression).
@@ -25,7 +27,7 @@ use datafusion::common::DFSchema;
 use proptest::prelude::*;
 use vf_kit::engine::*;
 
-use crate::walk::{self, Program, Purpose, Walk, WalkCase, WalkFail};
+use crate::walk::{self, Finding, Judged, Program, Purpose, Walk, WalkCase, WalkFail};
 
 pub struct C30;
 
@@ -69,42 +71,47 @@ pub struct Facts {
     pub nodes: usize,
 }
 
-pub fn check(w: &Walk) -> Result<Facts, String> {
-    let mut f = Facts { batches: 0, rows: 0, nonnull_fields: 0, nodes: 0 };
-    for n in &w.nodes {
-        let Ok(parts) = &n.parts else { continue };
-        f.nodes += 1;
-        let schema = n.plan.schema();
-        f.nonnull_fields += schema.fields().iter().filter(|x| !x.is_nullable()).count();
-        for (pi, part) in parts.iter().enumerate() {
-            for (bi, b) in part.iter().enumerate() {
-                f.batches += 1;
-                f.rows += b.num_rows();
-                let at = || format!("node [{}] {} partition {pi} batch {bi}", n.path, n.display);
-                if b.num_columns() != schema.fields().len() {
-                    return Err(format!("{}: batch has {} columns, the operator declares {}", at(), b.num_columns(), schema.fields().len()));
+fn check_node(n: &walk::WalkNode, f: &mut Facts) -> Result<(), String> {
+    let Ok(parts) = &n.parts else { return Ok(()) };
+    f.nodes += 1;
+    let schema = n.plan.schema();
+    f.nonnull_fields += schema.fields().iter().filter(|x| !x.is_nullable()).count();
+    for (pi, part) in parts.iter().enumerate() {
+        for (bi, b) in part.iter().enumerate() {
+            f.batches += 1;
+            f.rows += b.num_rows();
+            let at = || format!("node [{}] {} partition {pi} batch {bi}", n.path, n.display);
+            if b.num_columns() != schema.fields().len() {
+                return Err(format!("{}: batch has {} columns, the operator declares {}", at(), b.num_columns(), schema.fields().len()));
+            }
+            for (ci, field) in schema.fields().iter().enumerate() {
+                let col = b.column(ci);
+                if col.data_type() != field.data_type() {
+                    return Err(format!("{}: column {ci} ({:?}) has type {} but the operator declares {}", at(), field.name(), col.data_type(), field.data_type()));
                 }
-                for (ci, field) in schema.fields().iter().enumerate() {
-                    let col = b.column(ci);
-                    if col.data_type() != field.data_type() {
-                        return Err(format!("{}: column {ci} ({:?}) has type {} but the operator declares {}", at(), field.name(), col.data_type(), field.data_type()));
-                    }
-                    let bs = b.schema();
-                    if bs.field(ci).data_type() != field.data_type() {
-                        return Err(format!("{}: the batch schema says {} for column {ci} ({:?}), the operator declares {}", at(), bs.field(ci).data_type(), field.name(), field.data_type()));
-                    }
-                    if let Some(m) = null_offence(field, col, None) {
-                        return Err(format!("{}: {m}", at()));
-                    }
+                let bs = b.schema();
+                if bs.field(ci).data_type() != field.data_type() {
+                    return Err(format!("{}: the batch schema says {} for column {ci} ({:?}), the operator declares {}", at(), bs.field(ci).data_type(), field.name(), field.data_type()));
+                }
+                if let Some(m) = null_offence(field, col, None) {
+                    return Err(format!("{}: {m}", at()));
                 }
             }
         }
     }
+    Ok(())
+}
+
+fn check_top(w: &Walk) -> Result<(), String> {
     // top level: logical vs executed
     if let Some(root) = w.nodes.first() {
         if let (true, Ok(parts)) = (root.path.is_empty(), &root.parts) {
             let pschema = root.plan.schema();
-            for (which, ls) in [("analyzed logical plan", &w.logical_schema), ("optimized logical plan", &w.optimized_schema)] {
+            let mut refs = vec![("optimized logical plan", &w.optimized_schema)];
+            if let Some(a) = &w.analyzed_schema {
+                refs.push(("analyzed logical plan", a));
+            }
+            for (which, ls) in refs {
                 if ls.fields().len() != pschema.fields().len() {
                     return Err(format!("the {which} has {} output columns, the physical plan {}", ls.fields().len(), pschema.fields().len()));
                 }
@@ -125,7 +132,24 @@ pub fn check(w: &Walk) -> Result<Facts, String> {
             }
         }
     }
-    Ok(f)
+    Ok(())
+}
+
+/// all violated claims (at most one per node, plus the top-level comparison)
+pub fn check(w: &Walk) -> (Facts, Vec<Finding>) {
+    let mut f = Facts { batches: 0, rows: 0, nonnull_fields: 0, nodes: 0 };
+    let mut findings = vec![];
+    for n in &w.nodes {
+        if let Err(msg) = check_node(n, &mut f) {
+            // known finding: the aggregate-from-statistics rewrite leaves a PlaceholderRowExec declaring the aggregate's schema
+            let sig = (n.name == "PlaceholderRowExec").then(|| "placeholder-row-declares-aggregate-schema".to_string());
+            findings.push(Finding { sig, msg });
+        }
+    }
+    if let Err(msg) = check_top(w) {
+        findings.push(Finding { sig: None, msg });
+    }
+    (f, findings)
 }
 
 pub fn typed_ops(w: &Walk) -> bool {
@@ -167,36 +191,40 @@ impl Property for C30 {
         ]
     }
     fn known_signature(&self, case: &WalkCase) -> Option<String> {
-        // only a global aggregate (no GROUP BY) can be answered from statistics: skip the planning probe otherwise
-        if case.sql().contains("count(") || case.sql().contains("min(") || case.sql().contains("max(") {
-            if walk::has_typed_placeholder_row(case) {
-                return Some("placeholder-row-declares-aggregate-schema".into());
-            }
-        }
-        None
+        walk::judged_signature("c30", case, || judge(case))
     }
     fn run(&self, case: &WalkCase) -> CaseResult {
-        let w = match walk::walk(case) {
-            Ok(w) => w,
-            Err(e) => return fail_result(e),
-        };
-        let labels = walk::plan_labels(case, &w);
-        match check(&w) {
-            Err(m) => CaseResult::violation(format!("{m}{}\n  plan:\n{}", case.describe(), w.plan_text)).labels(labels),
-            Ok(f) => {
-                let nt = f.nodes >= 3 && f.rows >= 1 && (f.nonnull_fields > 0 || typed_ops(&w));
-                let mut r = CaseResult::pass().nontrivial(nt).labels(labels);
-                if f.nonnull_fields > 0 {
-                    r = r.label("declares-non-nullable");
-                }
-                if w.nodes.iter().any(|n| n.parts.is_err()) {
-                    r = r.label("node-runtime-error");
-                }
-                if let Program::Tmpl(t) = &case.program {
-                    r = r.labels(t.features());
-                }
-                r
-            }
+        walk::judged_result("c30", case, || judge(case))
+    }
+}
+
+fn judge(case: &WalkCase) -> Judged {
+    let w = match walk::walk(case) {
+        Ok(w) => w,
+        Err(e) => return Judged::clean(fail_result(e)),
+    };
+    let labels = walk::plan_labels(case, &w);
+    let (f, mut findings) = check(&w);
+    for x in &mut findings {
+        x.msg = format!("{}{}\n  plan:\n{}", x.msg, case.describe(), w.plan_text);
+    }
+    let nt = f.nodes >= 3 && f.rows >= 1 && (f.nonnull_fields > 0 || typed_ops(&w));
+    let mut r = CaseResult::pass().nontrivial(nt).labels(labels);
+    if f.nonnull_fields > 0 {
+        r = r.label("declares-non-nullable");
+    }
+    if w.nodes.iter().any(|n| n.parts.is_err()) {
+        r = r.label("node-runtime-error");
+    }
+    // the SQL planner's schema before the analyzer's type coercion may differ (UNION of Utf8 / LargeUtf8 …): recorded, not judged
+    if let Some(root) = w.nodes.first() {
+        let ps = root.plan.schema();
+        if w.logical_schema.fields().len() == ps.fields().len() && w.logical_schema.fields().iter().zip(ps.fields().iter()).any(|(l, p)| !DFSchema::datatype_is_logically_equal(l.data_type(), p.data_type())) {
+            r = r.label("pre-analysis-schema-type-differs");
         }
     }
+    if let Program::Tmpl(t) = &case.program {
+        r = r.labels(t.features());
+    }
+    Judged { findings, result: r }
 }
